@@ -145,18 +145,28 @@ def one_run(hist, pool_names, off, inter, uni_kind='easy'):
     mw.network_thread = NT()
     mw.public_key = wallet.get_annotated_public_key("reserved for potentially mined block")
     miner_pub = mw.public_key
-    # ---- play the miner process: request / result rounds; the intervening event is injected at position `ipos`:
-    #      ('after-request', j) = between the j-th work request and its result, ('after-result', j) = after that result
-    ikind, ipos = (inter if isinstance(inter, tuple) else (inter, ('after-request', 0)))
-    found = None
-    served_at_request = None
-    parent_node = H
-    escaped = None
+    # ---- play the miner process(es): request / result operations of one or two miner ids sharing the watcher; the
+    #      intervening event is injected after the `ipos`-th operation of the schedule
+    ikind, ipos = (inter if isinstance(inter, tuple) else (inter, 0))
+    two = isinstance(ipos, tuple) and ipos[0] == 'two'
+    if two:
+        ipos = ipos[1]
+        mw.send_queues = [Q(), Q()]
+    elif isinstance(ipos, tuple):
+        ipos = {('after-request', 0): 0, ('after-request', 1): 2, ('after-result', 0): 1}[ipos]
     cur = {'head': H}
+    clock = H.ts + off
+    relay_count = [dict(), dict()]
+
+    def drain_peers():
+        for i, p in enumerate(peers):
+            for hh, m in p.received():
+                if type(m).__name__ == 'DataMessage' and m.data_type == b'\x00\x00' and hh.in_response_to == 0:
+                    k = enc.blockid(m.data)
+                    relay_count[i][k] = relay_count[i].get(k, 0) + 1
 
     def inject():
         if ikind == 'competing-block':
-            # a valid block on the same parent whose time lies between the clock and the future limit
             ts = max(H.ts + 1, clock + 10)
             if ts > clock + 30:
                 return
@@ -172,96 +182,134 @@ def one_run(hist, pool_names, off, inter, uni_kind='easy'):
             extra = [t for nm, t in menu.items() if nm not in pool_names]
             if extra:
                 node.cm.add_transaction_to_pool(extra[0])
-    clock = H.ts + off
-    for nonce in range(0, 200):
+
+    def schedule():
+        n = 0
+        while True:
+            if two:
+                yield ('req', 0, n)
+                yield ('req', 1, n + 1000)
+                yield ('res', 0, n)
+                yield ('res', 1, n + 1000)
+            else:
+                yield ('req', 0, n)
+                yield ('res', 0, n)
+            n += 1
+    req = {}
+    found_blocks = []
+    escaped = None
+    nops = 0
+    for op, m, nonce in schedule():
+        if nops >= 120 or len(found_blocks) >= (2 if two else 1) or escaped:
+            break
         net.current = node
-        try:
-            mw.handle_request_scrypt_input_message(0, nonce)
-        except Exception as e:
-            escaped = ('request', e)
-            break
-        kind, (summary, height) = mw.send_queues[0].items[-1]
-        served_at_request = (node.cm.coinstate, list(node.cm.transaction_pool))
-        parent_node = cur['head']
-        if ikind != 'none' and ipos == ('after-request', nonce):
-            inject()
-        sh = consensus.construct_summary_hash(summary, height)
-        before_cm_head = node.cm.coinstate.current_chain_hash
-        try:
-            mw.handle_scrypt_output_message(0, sh)
-        except Exception as e:
-            escaped = ('result', e)
-        node.flush()         # the selector loop would now write out what the handler queued
-        s_, h_, txs_ = mw.mining_args[0]
-        from skepticoin.datatypes import Block, BlockHeader
-        try:
-            ev = consensus.construct_pow_evidence_after_scrypt(sh, served_at_request[0], s_, h_, txs_)
-            blk = Block(BlockHeader(s_, ev), txs_)
-            if blk.hash() < blk.target:
-                found = blk
+        if op == 'req':
+            try:
+                mw.handle_request_scrypt_input_message(m, nonce)
+            except Exception as e:
+                escaped = ('request', e)
                 break
-        except Exception as e:
-            escaped = escaped or ('evidence', e)
-        if escaped:
-            break
-        if ikind != 'none' and ipos == ('after-result', nonce):
+            kind, (summary, height) = mw.send_queues[m].items[-1]
+            req[m] = {'summary': summary, 'height': height, 'served': (node.cm.coinstate, list(node.cm.transaction_pool)),
+                      'parent': cur['head']}
+        else:
+            if m not in req:
+                continue
+            r = req[m]
+            sh = consensus.construct_summary_hash(r['summary'], r['height'])
+            before_cm_head = node.cm.coinstate.current_chain_hash
+            s_, h_, txs_ = mw.mining_args[m]
+            from skepticoin.datatypes import Block, BlockHeader
+            blk = None
+            try:
+                ev = consensus.construct_pow_evidence_after_scrypt(sh, r['served'][0], s_, h_, txs_)
+                blk = Block(BlockHeader(s_, ev), txs_)
+            except Exception:
+                pass
+            exc = None
+            try:
+                mw.handle_scrypt_output_message(m, sh)
+            except Exception as e:
+                exc = e
+            node.flush()
+            drain_peers()
+            if blk is not None and blk.hash() < blk.target:
+                found_blocks.append({'block': blk, 'req': r, 'before_cm_head': before_cm_head, 'exc': exc, 'miner': m,
+                                     'cm_after': node.cm.coinstate, 'pub': r.get('pub')})
+                if node.cm.coinstate.current_chain_hash == enc.blockid(blk):
+                    cur['head'] = world.Node(blk, r['parent'], path=r['parent'].path + ('mined%d' % len(found_blocks),), check_apply=False)
+                    try:
+                        cur['head'].utxo = refmodel.apply_block(r['parent'].utxo, blk)
+                    except Exception:
+                        pass
+            elif exc is not None:
+                escaped = ('result', exc)
+        if op == 'req':
+            req[m]['pub'] = mw.public_key
+        if ikind != 'none' and nops == ipos:
             inject()
-    if found is None:
+            drain_peers()
+        nops += 1
+    if not found_blocks:
         store.close()
         if escaped:
             bad.append(('miner-handler-raises', "miner %s handler raises %r before any block was found" % escaped))
         return bad, {'skip': 'no block found'}
     info['found'] = True
-    bid = enc.blockid(found)
-    H0, H = H, parent_node          # the head served when the winning candidate was requested
-    # ---- the found block itself
-    tags = refmodel.validate_block(found, H, clock)
-    try:
-        served_at_request[0].add_block(found, clock)
-        own_ok = True
-    except Exception as e:
-        own_ok = False
-        own_err = repr(e)[:80]
-    if tags or not own_ok:
-        bad.append(('mined-block-fails-validation:' + '+'.join(sorted(tags) or ['node-only']) + '@clock=head%+d' % off,
-                    "the block assembled and found at clock = head time %+d s fails %s" % (
-                        off, ("full validation: " + ', '.join(sorted(tags))) if tags else ("the node's own validation: " + own_err))))
-    fees = 0
-    for t in found.transactions[1:]:
-        fees += sum(H.utxo[refmodel.refkey(i.output_reference)][0] for i in t.inputs) - sum(o.value for o in t.outputs)
-    rw = found.transactions[0]
-    if sum(o.value for o in rw.outputs) != refmodel.subsidy(H.height + 1) + fees:
-        bad.append(('reward-not-exact', "reward pays %d, subsidy + fees of the included transactions is %d" % (
-            sum(o.value for o in rw.outputs), refmodel.subsidy(H.height + 1) + fees)))
-    if any(o.public_key.public_key != miner_pub for o in rw.outputs):
-        bad.append(('reward-wrong-key', "reward does not pay the miner's key"))
-    if found.header.summary.timestamp <= H.ts:
-        bad.append(('timestamp-not-after-parent', "block time %d <= parent time %d" % (found.header.summary.timestamp, H.ts)))
-    if [enc.txid(t) for t in found.transactions[1:]] != [enc.txid(t) for t in served_at_request[1]]:
-        info['pool_differs'] = True
-    # ---- adoption (only meaningful for a block that is valid: an invalid one must not be adopted)
-    if not tags and own_ok:
-        after = node.cm.coinstate
-        if bid not in after.block_by_hash:
-            bad.append(('found-block-not-in-served-state', "after the found-block handler the chain state served to peers does not "
-                        "contain the block (served head height %d, block height %d)" % (after.head().height, H.height + 1)))
-        elif found.header.summary.previous_block_hash == before_cm_head and after.current_chain_hash != bid:
-            bad.append(('found-block-not-head', "the found block extends the served head but is not the served head afterwards"))
+    for fb in found_blocks:
+        found = fb['block']
+        r = fb['req']
+        Hp = r['parent']
+        bid = enc.blockid(found)
+        miner_pub = r['pub']
+        tags = refmodel.validate_block(found, Hp, clock)
         try:
-            con = sqlite3.connect(path, timeout=0.2)
-            rows = {r[0] for r in con.execute("select block_hash from chain")}
-            con.close()
+            r['served'][0].add_block(found, clock)
+            own_ok = True
         except Exception as e:
-            rows = set()
-        if bid not in rows:
-            bad.append(('found-block-not-stored', "the found block is not in the block store"))
-        for i, p in enumerate(peers):
-            n = sum(1 for hh, m in p.received() if type(m).__name__ == 'DataMessage' and m.data_type == b'\x00\x00' and
-                    enc.blockid(m.data) == bid and hh.in_response_to == 0)
-            if p.alive and n != 1:
-                bad.append(('found-block-broadcast-count', "peer %d received the found block %d times" % (i, n)))
-        if escaped:
-            bad.append(('miner-handler-raises', "found-block handler raises %r for a valid block" % (escaped[1],)))
+            own_ok = False
+            own_err = repr(e)[:80]
+        if tags or not own_ok:
+            bad.append(('mined-block-fails-validation:' + '+'.join(sorted(tags) or ['node-only']) + '@clock=head%+d' % off,
+                        "the block assembled and found at clock = head time %+d s fails %s" % (
+                            off, ("full validation: " + ', '.join(sorted(tags))) if tags else ("the node's own validation: " + own_err))))
+        fees = 0
+        try:
+            for t in found.transactions[1:]:
+                fees += sum(Hp.utxo[refmodel.refkey(i.output_reference)][0] for i in t.inputs) - sum(o.value for o in t.outputs)
+        except KeyError:
+            fees = None
+        rw = found.transactions[0]
+        if fees is not None and sum(o.value for o in rw.outputs) != refmodel.subsidy(Hp.height + 1) + fees:
+            bad.append(('reward-not-exact', "reward pays %d, subsidy + fees of the included transactions is %d" % (
+                sum(o.value for o in rw.outputs), refmodel.subsidy(Hp.height + 1) + fees)))
+        if any(o.public_key.public_key != miner_pub for o in rw.outputs):
+            bad.append(('reward-wrong-key', "reward does not pay the miner's key"))
+        if found.header.summary.timestamp <= Hp.ts:
+            bad.append(('timestamp-not-after-parent', "block time %d <= parent time %d" % (found.header.summary.timestamp, Hp.ts)))
+        # ---- adoption (only meaningful for a block that is valid: an invalid one must not be adopted)
+        if not tags and own_ok:
+            after = fb['cm_after']
+            who = "miner %d's block" % fb['miner'] if two else "the found block"
+            if bid not in after.block_by_hash:
+                bad.append(('found-block-not-in-served-state', "after the found-block handler the chain state served to peers does "
+                            "not contain %s (served head height %d, block height %d)" % (who, after.head().height, Hp.height + 1)))
+            elif found.header.summary.previous_block_hash == fb['before_cm_head'] and after.current_chain_hash != bid:
+                bad.append(('found-block-not-head', "%s extends the served head but is not the served head afterwards" % who))
+            try:
+                con = sqlite3.connect(path, timeout=0.2)
+                rows = {r_[0] for r_ in con.execute("select block_hash from chain")}
+                con.close()
+            except Exception as e:
+                rows = set()
+            if bid not in rows:
+                bad.append(('found-block-not-stored', "%s is not in the block store" % who))
+            for i, p in enumerate(peers):
+                n = relay_count[i].get(bid, 0)
+                if p.alive and n != 1:
+                    bad.append(('found-block-broadcast-count', "peer %d received %s %d times" % (i, who, n)))
+            if fb['exc'] is not None:
+                bad.append(('miner-handler-raises', "found-block handler raises %r for a valid block" % (fb['exc'],)))
     if net.escaped:
         bad.append(('exception-escaped', "node handler: %s" % (net.escaped[0],)))
     store.close()
@@ -290,6 +338,11 @@ def configs(ctx):
                     if off in (-1, 0, 120) and len(sub) <= 1:
                         for pos in (('after-request', 0), ('after-request', 1), ('after-result', 0)):
                             inters += [('competing-block', pos), ('pool-gains-tx', pos)]
+                    if off in (0, 120) and len(sub) <= 1:
+                        # two miner processes sharing the watcher: req0 req1 res0 res1 ...; event after operation k
+                        inters += [('none', ('two', 0))]
+                        for k in (0, 1, 2):
+                            inters += [('competing-block', ('two', k)), ('pool-gains-tx', ('two', k))]
                     for it in inters:
                         out.append((hist, sub, off, it))
     return out, [len(l) for l in levels]
@@ -334,7 +387,7 @@ def run(ctx):
             ctx.violation(key, "%s; ledger history %s, pool %s, clock offset %+d, intervening event %s" % (
                 what, ledger.hist_str(cfg[0]), list(cfg[1]), cfg[2], cfg[3]),
                 {'hist': [list(p) for p in cfg[0]], 'pool': list(cfg[1]), 'off': cfg[2],
-                 'inter': cfg[3] if isinstance(cfg[3], str) else [cfg[3][0], list(cfg[3][1])]})
+                 'inter': cfg[3] if isinstance(cfg[3], str) else [cfg[3][0], list(cfg[3][1]) if isinstance(cfg[3][1], tuple) else cfg[3][1]]})
     ctx.cov.update({
         'states': sum(per_level), 'transitions': tot['runs'], 'traces_validated_against_impl': tot['found'],
         'samples': [{'history': ledger.hist_str(cfgs[0][0]), 'pool': list(cfgs[0][1]), 'clock_offset': cfgs[0][2], 'event': cfgs[0][3]}],
@@ -349,6 +402,7 @@ def run(ctx):
 def replay(data, ctx):
     setup_worker()
     with contextlib.redirect_stdout(io.StringIO()):
-        it = data['inter'] if isinstance(data['inter'], str) else (data['inter'][0], tuple(data['inter'][1]))
+        it = data['inter'] if isinstance(data['inter'], str) else (
+            data['inter'][0], tuple(data['inter'][1]) if isinstance(data['inter'][1], list) else data['inter'][1])
         bad, info = one_run(tuple(tuple(p) for p in data['hist']), tuple(data['pool']), data['off'], it)
     return list(bad or [])
